@@ -9,7 +9,9 @@ META = dict(
     text="A real TcpServerStack and a real TcpClientStack are connected over socket doubles; 0-3 packets of 1-3 distinct "
          "bytes are queued in each direction (quick: 15 shape pairs, thorough: 120), plus shared-packet cases (quick 7, thorough "
          "30) and close cases (quick 3, thorough 39: the client closes right after its last packet was accepted; all "
-         "received bytes must be delivered as packets before the connection is reaped): one Packet instance transmitted twice in a row, and one Packet instance transmitted to two connected clients "
+         "received bytes must be delivered as packets before the connection is reaped) and dead-destination cases (quick 2, thorough 5: a packet "
+         "queued for a connection that was just reaped sits ahead of packets for a live peer; the caller tolerates the "
+         "ValueError, which may occur once, and the live peer must still get everything): one Packet instance transmitted twice in a row, and one Packet instance transmitted to two connected clients "
          "which both also send their own packets to the server (each must come out attributed to its own connection); "
          "the transmitted Packet objects must keep their .packed. The driver then services the two stacks "
          "step by step with the same calls serviceAll() makes, except that it drains .rxPkts itself; which stack is serviced "
@@ -70,7 +72,8 @@ def shared_cases(tier):
     closers = [((2,), ()), ((1, 2), ()), ((3, 1, 2), ())] if tier == "quick" else \
         [(a, ()) for n in (1, 2, 3) for a in itertools.product((1, 2, 3), repeat=n)]
     return [(a, b, m) for m in ("resend", "broadcast") for a, b in sshapes if b or m == "broadcast"] + \
-        [(a, b, "sendclose") for a, b in closers]
+        [(a, b, "sendclose") for a, b in closers] + \
+        [((), b, "deadhead") for b in (((2,), (1, 2)) if tier == "quick" else ((1,), (2,), (1, 2), (3, 1), (2, 1, 3)))]
 
 
 def fresh_pairs(tier):
@@ -272,6 +275,103 @@ def execute(ch, cshape, sshape, part, states, mode="fresh"):
                 "%s raised %s: %s (in %s)" % (step_name, type(ex).__name__, ex, w), log, fn)
 
 
+def execute_deadhead(ch, sshape, part, states):
+    """Two clients A and B.  A closes; the server notices the cut off; the application then queues one packet for A
+    followed by the sshape packets for B; the next server pass reaps A and finds the dead packet at the head of
+    .txPkts.  The caller tolerates the ValueError of the stale destination and keeps servicing.
+    Oracle: ValueError at most once (the dead packet is consumed), B receives all its packets exactly once in
+    order, .txPkts drains.  Choice points: who is serviced next (B / server) and every answer of B's two sockets."""
+    S, P = M["stacking"], M["packeting"]
+    fn = net.FakeNet(chooser=ch)
+    FSM.net = fn
+    ck = net.clock()
+    sq = payloads(sshape, BETA)
+    stotal = b"".join(sq)
+    log = []
+    step_name = "setup"
+    errors = []
+    try:
+        ss = S.TcpServerStack(stamper=ck, ha=("", PORT), name="server")
+        clients = []
+        for i in range(2):
+            cs = S.TcpClientStack(stamper=ck, ha=(net.LOOP, PORT), name="client%d" % i)
+            cs.serviceConnect()
+            if not cs.handler.connected:
+                raise core.BrokenCheck("client stack did not connect over ideal doubles")
+            clients.append(cs)
+        ss.serviceConnects()
+        caA, caB = clients[0].handler.ca, clients[1].handler.ca
+        if list(ss.handler.ixes.keys()) != [caA, caB]:
+            raise Bad("no-connection", "server stack holds %r" % (list(ss.handler.ixes.keys()),))
+        ixA, ixB = ss.handler.ixes[caA], ss.handler.ixes[caB]
+        csockB, ssockB = clients[1].handler.cs, ixB.cs
+
+        def server_step():
+            for call in (ss.serviceConnects, ss.handler.serviceReceivesAllIx, ss.serviceReceives, ss.serviceTxPkts,
+                         ss.handler.serviceTxesAllIx):
+                try:
+                    call()
+                except ValueError as ex:          # stale destination: the application logs it and carries on
+                    errors.append("%s: %s" % (call.__name__, ex))
+
+        clients[0].close()                    # A goes away
+        step_name = "service(server) after A closed"
+        server_step()
+        if not ixA.cutoff:
+            raise core.BrokenCheck("server did not notice that A closed")
+        if errors:
+            raise Bad("raised|ValueError|early", "ValueError before anything was queued: %r" % errors)
+        ss.transmit(P.Packet(stack=ss, packed=b"Z"), caA)          # queued for the dead peer, at the head
+        for d in sq:
+            ss.transmit(P.Packet(stack=ss, packed=d), caB)
+        menu = net.Menu(send_partial=True, send_block=True, recv_split=True, recv_block=True)
+        csockB.menu = menu
+        ssockB.menu = menu
+        crx = []
+        horizon = 2 * (len(sq) + ch_bound(ch) + 4)
+        turn = 1                              # the server first: it reaps A and meets the dead packet
+        for step in range(horizon):
+            side = (turn + ch.choose(2, "who", 0, 1)) % 2
+            turn = (side + 1) % 2
+            step_name = "service(%s)" % ("clientB", "server")[side]
+            log.append(("Bclient", "server")[side])
+            if side == 0:
+                cs = clients[1]
+                cs.serviceConnect()
+                if not cs.handler.cutoff and cs.handler.connected:
+                    cs.serviceReceives()
+                    cs.serviceTxPkts()
+                while cs.rxPkts:
+                    crx.append(bytes(cs.rxPkts.popleft().packed))
+            else:
+                server_step()
+            part.transitions += 1
+            if len(errors) > 1:
+                raise Bad("stale-packet-raises-again", "the packet queued for the closed connection made the tx service "
+                          "raise ValueError %d times: %r" % (len(errors), errors[:2]))
+            if bytes(ssockB.sent) != stotal[:len(ssockB.sent)]:
+                raise Bad("server-tx-not-a-prefix", "server socket to B accepted %r, queued for B %r" % (bytes(ssockB.sent), stotal))
+            got = b"".join(crx)
+            if got != bytes(csockB.recvd)[:len(got)] or len(got) + len(clients[1].rxbs) != len(csockB.recvd):
+                raise Bad("client-rx-packets", "client B socket returned %r, packets %r + buffer %r"
+                          % (bytes(csockB.recvd), crx, bytes(clients[1].rxbs)))
+            states.add(hash(("deadhead", len(ssockB.sent), len(csockB.recvd), len(csockB.inbox), len(ss.txPkts),
+                             tuple(len(x) for x in ixB.txes), len(crx), len(errors), caA in ss.handler.ixes, turn, sshape)))
+            if got == stotal and not ss.txPkts and caA not in ss.handler.ixes:
+                part.outcome("deadhead: B served in %d steps, %d ValueError" % (step + 1, len(errors)))
+                return None
+        raise Bad("not-delivered", "after %d service steps B received %r of %r; %d packet(s) still in .txPkts; ValueErrors: %r"
+                  % (horizon, crx, stotal, len(ss.txPkts), errors[:2]))
+    except Bad as b:
+        return (b.kind, "%s: %s" % (step_name, b.what), log, fn)
+    except core.BrokenCheck:
+        raise
+    except Exception as ex:
+        w = where_of(ex)
+        return ("raised|%s|%s" % (type(ex).__name__, w),
+                "%s raised %s: %s (in %s)" % (step_name, type(ex).__name__, ex, w), log, fn)
+
+
 def ch_bound(ch):
     return BOUND[core.TIER]
 
@@ -308,7 +408,10 @@ def work(pair, replay=None):
 
     def run(ch):
         with core.watchdog(20):      # a service call that never returns is a broken run, not a slow one
-            res = execute(ch, cshape, sshape, p, states, mode)
+            if mode == "deadhead":
+                res = execute_deadhead(ch, sshape, p, states)
+            else:
+                res = execute(ch, cshape, sshape, p, states, mode)
         p.traces += 1
         p.evaluations += 1
         if res is not None:
@@ -324,7 +427,7 @@ def work(pair, replay=None):
                                                                   "" if mode == "fresh" else " mode=%s" % mode,
                                                                   "".join(x[0] for x in log) or "-", ",".join(answers) or "-"),
                         "%sTcpClientStack -> %s, TcpServerStack -> %s: %s" % (
-                            dict(fresh="", sendclose="the client closes as soon as its packets are accepted; ", resend="first packet of each direction is one Packet instance transmitted twice; ",
+                            dict(fresh="", deadhead="client A closed; one packet for A queued ahead of the packets for client B; ", sendclose="the client closes as soon as its packets are accepted; ", resend="first packet of each direction is one Packet instance transmitted twice; ",
                                  broadcast="two clients (the second sends %s), each server packet is one Packet instance transmitted to "
                                            "both; " % payloads(tuple(reversed(cshape)), DIGITS))[mode],
                             payloads(cshape, ALPHA), payloads(sshape, BETA), what),
